@@ -8,6 +8,7 @@
 //     (those end the process and leave a crash- artifact).
 // Escapes whose signature is listed in FUZZ_KNOWN (";"-separated) are counted
 // and skipped so that the campaign keeps searching behind a recorded finding.
+#include <cctype>
 #include <cstdint>
 #include <cstdio>
 #include <cstdlib>
@@ -314,6 +315,18 @@ std::string random_value(std::minstd_rand& r, const std::vector<pugi::xml_node>&
     {
         auto n = nodes[r() % nodes.size()];
         std::string nm = n.attribute("name").as_string();
+        // names are looked up ignoring letter case: refer to the entity in another spelling now and then
+        if(r() % 3 == 0)
+        {
+            unsigned how = r() % 3;
+            for(auto& ch : nm)
+            {
+                unsigned char u = static_cast<unsigned char>(ch);
+                if(how == 0) ch = static_cast<char>(std::toupper(u));
+                else if(how == 1) ch = static_cast<char>(std::tolower(u));
+                else ch = static_cast<char>(std::isupper(u) ? std::tolower(u) : std::toupper(u));
+            }
+        }
         if(k == 7 && n.parent() && n.parent().attribute("name"))
             return std::string(n.parent().attribute("name").as_string()) + "." + nm;
         return nm;
@@ -339,8 +352,26 @@ extern "C" size_t LLVMFuzzerCustomMutator(uint8_t* Data, size_t Size, size_t Max
         collect(doc, nodes);
         if(nodes.empty()) break;
         auto n = nodes[rnd() % nodes.size()];
-        switch(rnd() % 12)
+        switch(rnd() % 13)
         {
+        case 12: { // respell one referring attribute in another letter case
+            static const char* refs[] = {"type", "dimensionType", "encodingType", "headerType", "valueRef"};
+            auto at = n.attribute(refs[rnd() % 5]);
+            if(!at && n.parent()) at = n.parent().attribute(refs[rnd() % 5]);
+            if(at)
+            {
+                std::string v = at.as_string();
+                unsigned how = rnd() % 3;
+                for(auto& ch : v)
+                {
+                    unsigned char u = static_cast<unsigned char>(ch);
+                    if(how == 0) ch = static_cast<char>(std::toupper(u));
+                    else if(how == 1) ch = static_cast<char>(std::tolower(u));
+                    else ch = static_cast<char>(std::isupper(u) ? std::tolower(u) : std::toupper(u));
+                }
+                at.set_value(v.c_str());
+            }
+            break; }
         case 0: { // remove attribute
             std::vector<pugi::xml_attribute> as(n.attributes_begin(), n.attributes_end());
             if(!as.empty()) n.remove_attribute(as[rnd() % as.size()]);
